@@ -93,9 +93,11 @@ Section Dense.
   Definition d_sub (A B : dmat) : option dmat :=
     if (dm A =? dm B) && (dn A =? dn B)
     then Some (d_mk (dm A) (dn A) (fun i j => rsub o (d_get A i j) (d_get B i j))) else None.
-  (* &a * &b : nalgebra panics unless ncols a = nrows b *)
+  (* &a * &b : nalgebra (gemm for dynamic sizes) checks ncols a = nrows b once per column of the result
+     (gemv), or up front when every dimension exceeds 5 (then the result has columns too): a mismatch is
+     NOT detected when b has no column - the result is then the empty (nrows a) x 0 matrix *)
   Definition d_mul (A B : dmat) : option dmat :=
-    if dn A =? dm B
+    if (dn A =? dm B) || (dn B =? 0)
     then Some (d_mk (dm A) (dn B) (fun i j => sum o (dn A) (fun k => rmul o (d_get A i k) (d_get B k j))))
     else None.
 
